@@ -1074,6 +1074,83 @@ def store_site_coverage(repo, tier):
     return {"obligations": obls, "functions": fns}
 
 
+def dict_field_keys(repo, tier):
+    """Document content can never be mistaken for the encoding's markers: every mapping-typed field of a registered dataclass
+    (a Dict anywhere in its hint) is either filled only with mappings whose keys are string literals of the code that are not
+    markers (provenance over the constructing module: dict displays / dict(...) / item stores, through attributes and helper
+    functions), or it is a recorded site of known finding F6.  Keys of unknown origin make the obligation `unknown`; the
+    native marker-slot documents then decide."""
+    from contracts import c05registry as R
+    obls = []
+    d = R.derive(repo)
+    recorded = {s_ for f in recorded_exclusions() for s_ in f.get("sites", [])}
+    files = loader.all_package_files(repo)
+    mods = {}
+    for name, info in sorted(d["classes"].items()):
+        for fname, shape, _hasdef in info["fields"]:
+            if not R.shape_has_dict(shape):
+                continue
+            oid = f"C05/data_types.py::{name}.{fname}/dict-keys#keys-are-code-constants"
+            kc, sites, why = "bot", 0, []
+            try:
+                for rel in files:
+                    if rel.endswith("data_types.py"):
+                        continue
+                    m = mods.get(rel) or loader.module(rel, repo)
+                    mods[rel] = m
+                    if name not in m.source:
+                        continue
+                    calls = [n for n in ast.walk(m.tree) if isinstance(n, ast.Call) and (getattr(n.func, "id", None) == name or getattr(n.func, "attr", None) == name)]
+                    if not calls:
+                        continue
+                    mf = R.ModuleFlow(m)
+                    cls_fields = [x[0] for x in info["fields"]]
+                    for c in calls:
+                        exprs = [k.value for k in c.keywords if k.arg == fname]
+                        if not exprs and fname in cls_fields and cls_fields.index(fname) < len(c.args):
+                            exprs = [c.args[cls_fields.index(fname)]]
+                        if any(k.arg is None for k in c.keywords):
+                            why.append(f"{rel}:{c.lineno} **kwargs constructor call")
+                            kc = R.kjoin(kc, "raw")
+                        for e in exprs:
+                            sites += 1
+                            k_ = R.key_classes(mf.shape_at(e))
+                            if mf.shape_at(e) == "raw":
+                                k_ = "raw"
+                            if k_ not in ("bot", "lit"):
+                                why.append(f"{rel}:{c.lineno} {fname}={ast.unparse(e)[:40]}: keys {k_}")
+                            kc = R.kjoin(kc, k_)
+                    if fname in mf.attr_env:                 # later stores through the attribute (obj.field[...] = / .append)
+                        k_ = R.key_classes(mf.attr_env[fname])
+                        if k_ not in ("bot", "lit"):
+                            why.append(f"{rel}: stores through .{fname}: keys {k_}")
+                        kc = R.kjoin(kc, k_)
+            except Exception as e:  # noqa  (unexpected shape: undecided, never an engine error)
+                kc, why = "raw", why + [f"analysis failed: {type(e).__name__}: {e}"]
+            key = f"{name}.{fname}"
+            if kc in ("bot", "lit"):
+                obls.append(ground_obligation(oid, True, f"{sites} construction site(s); keys: {'string literals of the code' if kc == 'lit' else 'no mapping is ever stored'}",
+                                              DT_PY, kind="dict-keys", backend="dataflow"))
+            elif key in recorded:
+                obls.append(ground_obligation(oid, True, f"keys are document content: recorded site of known finding F6 (exclusion has_marker_key); {'; '.join(why)[:200]}",
+                                              DT_PY, kind="dict-keys", backend="dataflow"))
+            else:
+                obls.append(ground_obligation(oid, False, f"mapping keys of {key} are not shown to be code constants and the field is not a recorded F6 site: "
+                                              + "; ".join(why)[:300], DT_PY, kind="dict-keys", backend="dataflow", definite=False))
+    # Any-typed slots: each must be one whose stored values are under a store-site obligation (cell normalisers) -- a new Any-typed
+    # field joins the serialised registry silently, with nothing known about the kinds stored into it
+    covered_any = {"XlsSheet.data", "XlsxSheet.data", "OdsSheet.data", "TableData.data"}
+
+    def has_any(sh):
+        return sh == ("any",) or any(has_any(x) for x in sh[1:] if isinstance(x, tuple))
+    extra = sorted(f"{n}.{f}" for n, info in d["classes"].items() for f, sh, _ in info["fields"] if has_any(sh) and f"{n}.{f}" not in covered_any)
+    obls.append(ground_obligation("C05/data_types.py::registry/registry#any-typed-fields-have-store-site-obligations", not extra,
+                                  ("Any-typed field(s) without a store-site obligation: " + ", ".join(extra)) if extra else
+                                  "Any-typed fields: " + ", ".join(sorted(covered_any)) + " (TableData.data receives sheet rows / str tables: BOUNDED by the native cell-kind scopes)",
+                                  DT_PY, kind="registry", backend="ground", definite=False))
+    return {"obligations": obls}
+
+
 def native_scope(repo, tier):
     """BOUNDED stand-ins (DESIGN 2.8), one obligation per construct, run on the real code on every check (replay/C05.py):
     a mismatch is a concrete failing input (violation); finding nothing proves nothing (`bounded-ok`, never discharged).
@@ -1107,7 +1184,7 @@ def native_scope(repo, tier):
     return {"obligations": obls, "undecided": und}
 
 
-EXTRA = [registry, covers, glue, store_site_coverage, native_scope]
+EXTRA = [registry, covers, glue, store_site_coverage, dict_field_keys, native_scope]
 
 
 def recorded_exclusions():
